@@ -676,6 +676,17 @@ Proof.
   - eapply e5_cancel_inv; eauto.
   - eapply e5_resume_cancelled_inv; eauto.
   - eapply e5_resume_read_fail_inv; eauto.
+  - injection H as <-. unfold close. apply e5_crash_inv.
+  - unfold close_ok in H. destruct (persist_ok s); [|discriminate]. injection H as <-. apply e5_crash_inv.
+Qed.
+
+(* a graceful shutdown, like a crash, leaves an empty lock table and an empty queue (the next commander boots from disk) *)
+Lemma e5_close_empties s a s' :
+  (a = AClose \/ a = ACloseOk) -> step s a = Some s' -> v_locks s' = [] /\ v_queue s' = [].
+Proof.
+  intros [-> | ->] H; simpl in H.
+  - injection H as <-. split; reflexivity.
+  - unfold close_ok in H. destruct (persist_ok s); [|discriminate]. injection H as <-. split; reflexivity.
 Qed.
 
 Lemma e5_run_inv : forall acts s s', e5_Inv s -> run s acts = Some s' -> e5_Inv s'.
